@@ -275,66 +275,10 @@ func expectedRet(e *codec.Env, c *Call) string {
 }
 
 // classify names the input class a failing call belongs to (part of the failure signature, so that
-// a known finding can be listed by its class).
-func classify(c *Call) string {
-	dot, hdr := false, false
-	for _, k := range c.Keys {
-		if k.K == "str" && (string(k.B) == "." || string(k.B) == "..") {
-			dot = true
-		}
-	}
-	for _, cr := range c.Reply.Created {
-		if c.Kind() == "create" && cr.Id != nil && anyString(cr.Id, headerUnsafe) {
-			hdr = true
-		}
-	}
-	switch {
-	case dot:
-		return " [a path key is a dot segment]"
-	case hdr:
-		return " [created id is not a transparent HTTP header value]"
-	}
-	return ""
-}
-
-// anyString: does some string inside v satisfy p?
-func anyString(v *codec.V, p func(string) bool) bool {
-	if v == nil {
-		return false
-	}
-	if v.K == "str" {
-		return p(string(v.B))
-	}
-	for _, kv := range v.KVs {
-		if anyString(kv.V, p) {
-			return true
-		}
-	}
-	for _, it := range v.Items {
-		if anyString(it, p) {
-			return true
-		}
-	}
-	return false
-}
-
-// headerUnsafe: the text does not survive as an HTTP header field value as is (net/http trims
-// leading and trailing whitespace and rewrites CR / LF; the header flavour of ROR2 escapes only
-// % , ( ) ' :)
-func headerUnsafe(s string) bool {
-	if s == "" {
-		return false
-	}
-	if strings.TrimSpace(s) != s || s[0] == ' ' || s[0] == '\t' || s[len(s)-1] == ' ' || s[len(s)-1] == '\t' {
-		return true
-	}
-	for i := 0; i < len(s); i++ {
-		if s[i] < 0x20 && s[i] != '\t' || s[i] == 0x7f {
-			return true
-		}
-	}
-	return false
-}
+// a known finding can be listed by its class). Two former classes — a path key that is a dot segment,
+// a created id that is not a transparent header value — are gone with their repairs; what is left is
+// decided per execution (a ServeMux redirect, see judge).
+func classify(c *Call) string { return "" }
 
 func (x *runner) judge(c *Call, op string, execs []*execution) {
 	wantInv := canonInvocation(x.env, c)
